@@ -9,7 +9,7 @@ import re
 import genlib as G
 
 F = "routee-compass/src/plugin/output/default/traversal/traversal_ops.rs"
-OBLIGATIONS = ["create_route_linestring", "create_edge_geometry", "create_branch_geometry"]
+OBLIGATIONS = ["create_route_linestring", "create_route_geojson", "create_edge_geometry", "create_branch_geometry"]
 MUST_FAIL = ["vacuity_probe"]
 
 HEAD = """#![allow(unused_imports, unused_variables, dead_code, unused_mut, unused_parens, unused_assignments)]
@@ -29,6 +29,20 @@ pub open spec fn derefs(v: Seq<&LineStringF32>) -> Seq<LineStringF32> { Seq::new
 pub mod geo_io_utils { use super::*;
     #[verifier::external_body] pub fn concat_linestrings(linestrings: Vec<&LineStringF32>) -> (r: LineStringF32) ensures r == concat_spec(derefs(linestrings@)) { unimplemented!() }
 }
+// std functions vstd does not specify (assumed): Result::and_then, Option::cloned
+pub assume_specification<T, E, U, F: FnOnce(T) -> Result<U, E>> [ Result::<T, E>::and_then ](r: Result<T, E>, f: F) -> (o: Result<U, E>)
+    ensures r matches Ok(v) ==> f.ensures((v,), o), r matches Err(e) ==> o matches Err(e2) && e2 == e;
+#[verifier::external_body] pub struct Feature { _p: u8 }               // geojson::Feature
+#[verifier::external_body] pub struct Value { _p: u8 }                 // serde_json::Value
+#[verifier::external_body] pub struct JsonError { _p: u8 }
+impl vstd::std_specs::convert::FromSpecImpl<JsonError> for OutputPluginError { open spec fn obeys_from_spec() -> bool { false } open spec fn from_spec(v: JsonError) -> OutputPluginError { arbitrary() } }
+impl From<JsonError> for OutputPluginError { #[verifier::external_body] fn from(e: JsonError) -> OutputPluginError { unimplemented!() } }
+/// the GeoJSON feature of one traversed edge with a geometry (id = the edge id, properties = the traversal record; serde / geojson: uninterpreted)
+pub uninterp spec fn feature_of(t: EdgeTraversal, g: LineStringF32) -> Feature;
+#[verifier::external_body] pub fn create_geojson_feature(t: &EdgeTraversal, g: LineStringF32) -> (r: Result<Feature, OutputPluginError>) ensures r matches Ok(f) ==> f == feature_of(*t, g) { unimplemented!() }
+/// the feature collection of a list of features, serialised (uninterpreted)
+pub uninterp spec fn collection_of(fs: Seq<Feature>) -> Value;
+#[verifier::external_body] pub fn verif_feature_collection(features: Vec<Feature>) -> (r: Result<Value, JsonError>) ensures r matches Ok(v) ==> v == collection_of(features@) { unimplemented!() }
 /// C20: the stored geometries of the route's edges, in route order
 pub open spec fn route_geoms(route: Seq<EdgeTraversal>, geoms: Seq<LineStringF32>) -> Seq<LineStringF32> { Seq::new(route.len(), |i: int| geoms[route[i].edge_id.0 as int]) }
 pub open spec fn all_present(route: Seq<EdgeTraversal>, geoms: Seq<LineStringF32>) -> bool { forall|i: int| 0 <= i < route.len() ==> (#[trigger] route[i]).edge_id.0 < geoms.len() }
@@ -62,6 +76,27 @@ def build(x):
         decreases edge_ids@.len() - verif_b,""")
     f.insert_before(r"let geometry = geo_io_utils::concat_linestrings\(edge_linestrings\);", "    proof { assert(derefs(edge_linestrings@) =~= route_geoms(route@, geoms@)); }")
     fns.append(f.text)
+    gj = x.fn(F, "fn create_route_geojson")
+    gj.replace_macro_calls(r"format", "verif_format()")
+    gj.rewrite(r"LineString<f32>", "LineStringF32", 1, 1, rule="R-path")
+    gj.rewrite(r"serde_json::Value", "Value", 1, 1, rule="R-path")
+    patg = re.compile(r"let features = route\s*\.iter\(\)\s*\.map\(\|t\| \{(.*?)\n        \}\)\s*\.collect::<Result<Vec<_>, OutputPluginError>>\(\)\?;", re.S)
+    if len(patg.findall(gj.text)) != 1:
+        raise G.Undecided("lost anchor: the feature pipeline of create_route_geojson")
+    gj.rewrite(patg.pattern, r"let mut features: Vec<Feature> = Vec::new();\n    let mut verif_c: usize = 0;\n    while verif_c < route.len() { let t = &route[verif_c]; verif_c = verif_c + 1; let verif_x = {\1\n        }?; features.push(verif_x); }", 1, 1, rule="R-trycollect", flags=re.S)
+    gj.rewrite(r"\.and_then\(\|g\| create_geojson_feature\(t, g\)\)", ".and_then(|g: LineStringF32| -> (fr: Result<Feature, OutputPluginError>) ensures fr matches Ok(f) ==> f == feature_of(*t, g) { create_geojson_feature(t, g) })", 1, 1, rule="R-closure")
+    gj.rewrite(r"let feature_collection = FeatureCollection \{\s*bbox: None,\s*features,\s*foreign_members: None,\s*\};\s*let result = serde_json::to_value\(feature_collection\)\?;", "let result = verif_feature_collection(features)?;", 1, 1, rule="R-collect")
+    x.note("R-collect", "create_route_geojson: building the FeatureCollection and serde_json::to_value written verif_feature_collection(features)? (uninterpreted serialisation of the feature LIST)")
+    gj.name_return("r")
+    gj.add_spec("""    ensures
+        // C20: one feature per route edge, IN ROUTE ORDER, each made of that edge's traversal record and ITS stored geometry
+        r matches Ok(v) ==> all_present(route@, geoms@) && v == collection_of(Seq::new(route@.len(), |i: int| feature_of(route@[i], geoms@[route@[i].edge_id.0 as int]))),
+        !all_present(route@, geoms@) ==> r is Err,""")
+    gj.add_loop_spec(1, """        invariant 0 <= verif_c <= route@.len(), features@.len() == verif_c,
+            forall|i: int| 0 <= i < verif_c ==> (#[trigger] route@[i]).edge_id.0 < geoms@.len() && features@[i] == feature_of(route@[i], geoms@[route@[i].edge_id.0 as int]),
+        decreases route@.len() - verif_c,""")
+    gj.insert_before(r"let result = verif_feature_collection\(features\)\?;", "    proof { assert(features@ =~= Seq::new(route@.len(), |i: int| feature_of(route@[i], geoms@[route@[i].edge_id.0 as int]))); }")
+    fns.append(gj.text)
     g = x.fn(F, "fn create_edge_geometry")
     g.replace_macro_calls(r"format", "verif_format()")
     g.rewrite(r"LineString<f32>", "LineStringF32", 2, 2, rule="R-path")
